@@ -866,6 +866,8 @@ pub fn run_session(ctx: &mut Ctx, v: &J) {
                 ctx.rel_fwd.insert(ek.clone(), ok.clone());
                 ctx.rel_bwd.insert(ok, ek);
             }
+        } else if sp == "C19" {
+            // C19 is about the value a sequence of builder calls produces; what a create helper hands to its closure is C03-C05's
         } else if !bytes_list_equiv(&ex["cb"], &o["cb"], slotfree) {
             ctx.mismatch(&sp, v, "closure-arguments-differ", json!({"step": i, "event": e, "want": ex["cb"], "got": o["cb"]}));
             return;
